@@ -328,6 +328,8 @@ def replay(prop, path):
     rec = records[0]
     v, exp = rec.get("violation"), rec.get("expected")
     if v is None:
+        if rec.get("set_aside"):
+            print(f"[{prop}] replay set aside, not a violation: {rec['set_aside']}")
         print(f"[{prop}] replay did not fail: property holds on this tree for {path}")
         return 0
     same = exp and v["invariant_id"] == exp["invariant_id"] and v["signature"] == exp["signature"]
